@@ -411,7 +411,9 @@ def run_job(unit, job, scratch, tier):
         r["broken"] = "vacuity guard: " + "; ".join(r["witnesses_bad"])
     if r.get("n_unknown") and not r["failures"] and not r.get("advisories"):
         r["broken"] = "%d properties left UNKNOWN by cbmc" % r["n_unknown"]
-    if r["witnesses_ok"] == 0 and not must_fail and not job.get("no_witness"):
+    if r["witnesses_ok"] == 0 and not must_fail and not job.get("no_witness") and not r["failures"]:
+        # (a job with a failed assertion is a violation, not a broken harness: CBMC 6 leaves everything after a failed check
+        #  UNKNOWN, witnesses included)
         r["broken"] = "harness has no reachable WITNESS"
     return r
 
@@ -628,8 +630,8 @@ def main():
         # every witness label must be reachable in at least one obligation of this run
         reached = {w for r in results for w in r.get("wit_reached", [])}
         for r in results:
-            if r["broken"]:
-                continue
+            if r["broken"] or r["failures"]:
+                continue  # a failed assertion cuts off what follows it: unreached witnesses of such a job say nothing about vacuity
             for w in r.get("wit_unreached", []):
                 if w not in reached and only is None:
                     r["broken"] = "vacuity guard: witness never reachable in any configuration: " + w
